@@ -285,7 +285,10 @@ def pattern_case(draw):
     lines = draw(vs.edge_int(1, 64))
     dense = draw(st.booleans())
     cells = draw(st.lists(cell if dense else sparse_cell, min_size=tracks * lines, max_size=tracks * lines))
-    return {"tracks": tracks, "lines": lines, "cells": cells, "via": draw(st.sampled_from(["raw_data", "notes"]))}
+    # what happened to the Pattern object before the image arrives: nothing, its data was looked at, it
+    # was bulk-edited, one of its cells was replaced by another Note object, another image was loaded
+    prior = draw(st.sampled_from([None, None, "read", "set_via_fn", "set_via_gen", "replace_cell", "other_image"]))
+    return {"tracks": tracks, "lines": lines, "cells": cells, "via": draw(st.sampled_from(["raw_data", "notes"])), "prior": prior}
 
 
 def check_pattern(case):
@@ -294,6 +297,25 @@ def check_pattern(case):
     tracks, lines, cells = case["tracks"], case["lines"], case["cells"]
     image = b"".join(struct.pack("<BBHHH", *c) for c in cells)
     p = Pattern(tracks=tracks, lines=lines)
+    prior = case.get("prior")
+    if prior == "read":
+        p.raw_data  # noqa: B018
+        p.data[lines - 1][tracks - 1].vel  # noqa: B018
+    elif prior == "set_via_fn":
+        from rv.api import Note
+
+        p.set_via_fn(lambda pat, ln, tr: Note(vel=1 + (ln + tr) % 128, module=tr + 1))
+    elif prior == "set_via_gen":
+        from rv.api import Note
+
+        p.set_via_gen(lambda pat, new: iter([(lines - 1, tracks - 1, Note(ctl=0x0102, val=0x0304)), (0, 0, Note(module=7))]))
+    elif prior == "replace_cell":
+        from rv.api import Note
+
+        p.data[lines // 2][tracks // 2] = Note(vel=9, module=3)
+        p.data[0][0] = Note(note=NOTECMD.C4)
+    elif prior == "other_image":
+        p.raw_data = bytes([1, 2, 3, 0, 4, 5, 6, 7]) * (tracks * lines)
     if case["via"] == "raw_data":
         p.raw_data = image
     else:
@@ -368,6 +390,8 @@ def run_shard(ctx, desc):
             ctx.case()
             check_pattern(case)
             ctx.label("pattern_" + case["via"])
+            if case.get("prior"):
+                ctx.label("pattern_image_after_" + case["prior"])
             if any(any(c) for c in case["cells"]):
                 ctx.mark_nontrivial(case)
             ctx.sample({"op": "pattern", "tracks": case["tracks"], "lines": case["lines"], "via": case["via"], "first_cells": case["cells"][:3]})
